@@ -273,7 +273,8 @@ def add_k12(reg):
     # total: outside the RFC's domain 0 <= x < 256**255 the byte count does not fit one byte (bchr) / long_to_bytes refuses -> ValueError
     reg.add(Contract(K12M + '_length_encode', params={'x': 'int'},
                      ensures={'value': 'result == spec.k12.length_encode(x)', 'size': '1 <= len(result) and len(result) <= 256'},
-                     raises={'ValueError': ('iff', 'x < 0 or x >= pow2(2040)')}, modifies=[], result='bytes', options=opts(int_lemmas=[2040])))
+                     raises={'ValueError': ('iff', 'x < 0 or x >= pow2(2040)')}, modifies=[], result='bytes', opaque=['spec.k12.enc_n0'],
+                     options=opts(int_lemmas=[2040])))
     T = 'obj:' + TURBO
     reg.add(ClassContract(K12, fields={'_custom': 'bytes', '_state': 'enum(1, 2, 3, 4)', '_padding': 'int|none', '_hash1': T, '_length1': 'int',
                                        '_hash2': T + '|none', '_length2': 'int', '_ctr': 'int'},
@@ -391,3 +392,40 @@ def units(prop, tier):
         for c in SHA3:
             u('hash.sha3.%s.copy' % c.split('.')[2], [c + '.copy', c + '.update', c + '.digest'])
     return us
+
+
+# ====================================================================================================================
+# Notes.  keccak.py and BLAKE2b/s.py have no copy() method in this tree (C19 copy bullet: nothing to prove there).
+# D10 (SHAKE copy() dropped _is_squeezing) and its SHA-3 twin (copy() dropped _digest_done, found by the clause
+# SHA3_*_Hash.copy.ensures.automaton of this file, fixed in /repo b41af21a) both verify now; removing either line again is caught (below).
+#
+# Mutation checks (tools/mut.py; exit 1 = VIOLATION on the named obligation):
+#   lib/Crypto/Hash/SHAKE128.py
+#     copy      drop `clone._is_squeezing = self._is_squeezing`       exit 1  C10 SHAKE128_XOF.copy.ensures.automaton (+ valid)
+#     update    `if self._is_squeezing:` -> `if False:`               exit 1  C10 SHAKE128_XOF.update.raises_only.ValueError, raises_iff.TypeError.if
+#     __init__  `self._padding = 0x1F` -> `0x06`                      exit 1  C03 SHAKE128_XOF.__init__.ensures.domain (+ call_pre.valid_self)
+#     __init__  `c_size_t(32)` -> `c_size_t(64)`                      exit 1  C03 SHAKE128_XOF.__init__.ensures.sponge
+#     update    `c_size_t(len(data))` -> `c_size_t(len(data) - 1)`    exit 1  C09 SHAKE128_XOF.update.call_pre.length_len_data
+#     copy      `clone = self.new()` -> `clone = self`                exit 1  C19 SHAKE128_XOF.copy.ensures.fresh
+#     read      benign: `squeezing = True; self._is_squeezing = squeezing`   exit 0
+#   lib/Crypto/Hash/SHA3_256.py
+#     copy      drop `clone._digest_done = self._digest_done`         exit 1  C10 SHA3_256_Hash.copy.ensures.automaton
+#     update    `and not self._update_after_digest` -> `and self._update_after_digest`   exit 1  C10 SHA3_256_Hash.update.raises_iff.TypeError.only_if
+#     __init__  `self._padding = 0x06` -> `0x1F`                      exit 1  C03 SHA3_256_Hash.__init__.ensures.sponge
+#     __init__  `c_size_t(self.digest_size * 2)` -> `(self.digest_size)`   exit 1  C03 SHA3_256_Hash.__init__.ensures.sponge
+#   lib/Crypto/Hash/keccak.py
+#     new       `not in (28, 32, 48, 64)` -> `(28, 32, 48, 64, 20)`   exit 1  C03 keccak.new.call_pre.digest_bytes_in_28_32_48_64
+#     __init__  `self._padding = 0x01` -> `0x06`                      exit 1  C03 Keccak_Hash.__init__.ensures.sponge
+#     digest    drop `self._digest_done = True`                       exit 1  C10 Keccak_Hash.digest.ensures.fsm_HASH_digest_final_digest_from_0 / done
+#   lib/Crypto/Hash/TurboSHAKE128.py
+#     __init__  `c_ubyte(12)` -> `c_ubyte(24)`                        exit 1  C03 TurboSHAKE.__init__.ensures.sponge
+#     new       `0x01 <= domain_separation` -> `0x00 <=`              exit 1  C03 TurboSHAKE128.new.raises_iff.ValueError.if
+#     _reset    `keccak_reset(self._state.get())` -> not called       exit 1  C10 TurboSHAKE._reset.ensures.reset / valid
+#   lib/Crypto/Hash/KangarooTwelve.py
+#     _length_encode  `S + bchr(len(S))` -> `bchr(len(S)) + S`        exit 1  C03 _length_encode.ensures.value (confirmed by native replay)
+#     read      `self._padding = 0x07` -> `0x06`                      exit 1  C03 K12_XOF.read.ensures.short / domain
+#     update    `if self._state == SQUEEZING:` -> `== LONG_MSG_SX`    exit 1  C10 K12_XOF.update.raises_iff.TypeError.only_if, unchanged_on_TypeError
+#     update    `<= 8192` -> `<= 8193` (SHORT_MSG test)               exit 1  C03 K12_XOF.update.ensures.valid
+#     update    `min(len(data), 8192 - self._length1)` -> `8193 -`    exit 1  C03 K12_XOF.update.raises_only.AssertionError
+#     update    `TurboSHAKE128.new(domain=0x0B)` -> `0x0C`            exit 1  C03 K12_XOF.update.loop_inv_entry.valid_self
+#     read      benign: `nchunks = self._ctr - 1; trailer = _length_encode(nchunks) + ..`   exit 0
